@@ -219,8 +219,11 @@ def workload(r, k: int):
 
 
 def run_alone(cfg, stmts) -> bytes:
-    stream = make_stream(cfg)
-    return fam_encode.delimited([fr.SerializeToString(deterministic=True) for fr in gser.stream_frames(stream, (s for s in stmts))])
+    try:
+        stream = make_stream(cfg)
+        return fam_encode.delimited([fr.SerializeToString(deterministic=True) for fr in gser.stream_frames(stream, (s for s in stmts))])
+    except Exception as e:  # noqa: BLE001
+        return b"RAISED " + type(e).__name__.encode()
 
 
 @plan(
@@ -244,11 +247,27 @@ def c12(ctx):
             mb = fam_encode.delimited(core.trace_frames(m))
             ctx.report.evaluations += 1
             if mb != a:
+                # the model is a pure function of (options, statements); is the implementation's output
+                # in this process, after the streams that ran before, what a fresh process writes?
+                pv = None
+                try:
+                    pr = subprocess.run([sys.executable, os.path.join(os.path.dirname(__file__), "wl_worker.py"), "--single"],
+                                        input=json.dumps({"cfg": c.as_json(), "stmts": [core_stmt_tok(x) for x in s]}), capture_output=True, text=True,
+                                        env=dict(os.environ, PYTHONPATH=core.REPO, PYTHONHASHSEED="0"), timeout=120)
+                    fresh = bytes.fromhex(pr.stdout.strip())
+                    if fresh != a:
+                        pv = {"what": f"the same statements and options give {len(a)} bytes after other streams ran in the process but {len(fresh)} bytes in a fresh process"}
+                except Exception:  # noqa: BLE001
+                    pass
                 out.append({"family": "EN", "entry": "stream_frames", "cfg": c.as_json(), "stmts": [core_stmt_tok(x) for x in s], "ns": [], "sink": False,
-                            "impl": hx(a)[:300], "model": hx(mb)[:300], "corresponds": False, "property_violation": None, "signature": {}})
+                            "impl": hx(a)[:300], "model": hx(mb)[:300], "corresponds": False, "property_violation": pv, "signature": {},
+                            "history": "run after the workloads generated earlier by the same seed in one process"})
         # prior history: create and partly use unrelated streams first
-        junk = make_stream(wls[0][0])
-        for _ in gser.stream_frames(junk, (s for s in wls[0][1][:2])):
+        try:
+            junk = make_stream(wls[0][0])
+            for _ in gser.stream_frames(junk, (s for s in wls[0][1][:2])):
+                pass
+        except Exception:  # noqa: BLE001
             pass
         # interleaved, writers and parsers together
         gens = []
@@ -267,6 +286,9 @@ def c12(ctx):
                 item = next(gen_)
                 acc.append(item.SerializeToString(deterministic=True) if kind == "w" else core.event_tok(item))
             except StopIteration:
+                live.remove(i)
+            except Exception as e:  # noqa: BLE001
+                acc.append(b"RAISED " + type(e).__name__.encode() if kind == "w" else "RAISED")
                 live.remove(i)
         ctx.report.evaluations += 1
         if len(set(order[:6])) > 1:
